@@ -1,4 +1,55 @@
-import SfxModel.ArithSpec
+import SfxProofs.Rem
+import SfxProps.C01
+/-
+  C07 — Remainders and Euclidean division satisfy a = q*b + r with the right sign/range.
+  Both operands are on the same grid, so everything is integer arithmetic on the bits: truncated remainder `Int.tmod a b`,
+  Euclidean remainder `a % b`, Euclidean quotient `a / b` (an integer value, bits `(a / b) * 2^f`); an integer divisor `k`
+  stands for the unbounded bits `k * 2^f`.
+-/
 namespace Sfx.C07
-theorem placeholder : True := trivial
+open Sfx.C01
+
+def C07_statement : Prop :=
+  ∀ L : Layout, L.valid → ∀ a b : Int, inRange L a → inRange L b → b ≠ 0 →
+    -- fixed-point divisor `b`
+    (L.remOp a b = .ok (Int.tmod a b) false ∧ L.checkedRem a b = .ok (some (Int.tmod a b)) false) ∧
+    (L.remEuclid a b = .ok (a % b) false ∧ L.checkedRemEuclid a b = .ok (some (a % b)) false) ∧
+    (L.overflowingDivEuclid a b = .ok (L.ovf ((a / b) * 2 ^ L.f)) false ∧ L.checkedDivEuclid a b = .ok (L.chk ((a / b) * 2 ^ L.f)) false ∧
+      L.wrappingDivEuclid a b = .ok (L.wrap ((a / b) * 2 ^ L.f)) false ∧ L.saturatingDivEuclid a b = .ok (L.clamp ((a / b) * 2 ^ L.f)) false ∧
+      L.divEuclid a b = .ok (L.wrap ((a / b) * 2 ^ L.f)) (!decide (inRange L ((a / b) * 2 ^ L.f)))) ∧
+    -- primitive-integer divisor `b` (same primitive type as the bits)
+    (L.remIntOp a b = .ok (Int.tmod a (b * 2 ^ L.f)) false ∧ L.checkedRemInt a b = .ok (some (Int.tmod a (b * 2 ^ L.f))) false) ∧
+    (L.overflowingRemEuclidInt a b = .ok (L.ovf (a % (b * 2 ^ L.f))) false ∧ L.checkedRemEuclidInt a b = .ok (L.chk (a % (b * 2 ^ L.f))) false ∧
+      L.wrappingRemEuclidInt a b = .ok (L.wrap (a % (b * 2 ^ L.f))) false ∧
+      L.remEuclidInt a b = .ok (L.wrap (a % (b * 2 ^ L.f))) (!decide (inRange L (a % (b * 2 ^ L.f))))) ∧
+    (L.overflowingDivEuclidInt a b = .ok (L.ovf ((a / (b * 2 ^ L.f)) * 2 ^ L.f)) false ∧
+      L.checkedDivEuclidInt a b = .ok (L.chk ((a / (b * 2 ^ L.f)) * 2 ^ L.f)) false ∧
+      L.wrappingDivEuclidInt a b = .ok (L.wrap ((a / (b * 2 ^ L.f)) * 2 ^ L.f)) false ∧
+      L.divEuclidInt a b = .ok (L.wrap ((a / (b * 2 ^ L.f)) * 2 ^ L.f)) (!decide (inRange L ((a / (b * 2 ^ L.f)) * 2 ^ L.f))))
+
+theorem holds : C07_statement := by
+  intro L hv a b ha hb hb0
+  obtain ⟨h2, _, _, hf⟩ := valid_facts hv
+  exact ⟨rem_spec L h2 hf a b ha hb hb0, remEuclid_spec L h2 hf a b ha hb hb0, divEuclid_forms L h2 hf a b ha hb hb0,
+    remInt_spec L h2 hf a b ha hb hb0, remEuclidInt_forms L h2 hf a b ha hb hb0, divEuclidInt_forms L h2 hf a b ha hb hb0⟩
+
+/-- zero divisor: `None` from the checked forms, the documented panic from the others -/
+theorem zero_divisor (L : Layout) (hv : L.valid) (a : Int) (ha : inRange L a) :
+    (L.checkedRem a 0 = .ok none false ∧ L.remOp a 0 = .panic ∧ L.checkedRemEuclid a 0 = .ok none false ∧ L.remEuclid a 0 = .panic) ∧
+    (L.checkedDivEuclid a 0 = .ok none false ∧ L.overflowingDivEuclid a 0 = .panic ∧ L.wrappingDivEuclid a 0 = .panic ∧
+      L.saturatingDivEuclid a 0 = .panic ∧ L.divEuclid a 0 = .panic) ∧
+    (L.checkedRemInt a 0 = .ok none false ∧ L.remIntOp a 0 = .panic ∧ L.checkedRemEuclidInt a 0 = .ok none false ∧
+      L.overflowingRemEuclidInt a 0 = .panic ∧ L.checkedDivEuclidInt a 0 = .ok none false ∧ L.overflowingDivEuclidInt a 0 = .panic) := by
+  obtain ⟨h2, _, _, hf⟩ := valid_facts hv
+  exact ⟨rem_zero L h2 hf a ha, divEuclid_zero L h2 hf a ha, int_zero L h2 hf a ha⟩
+
+/-- the Euclidean pair really satisfies `a = q*b + r`, `0 ≤ r < |b|` (core facts about `Int.ediv`/`Int.emod`, restated) -/
+theorem euclid_identity (a b : Int) (hb : b ≠ 0) : a = (a / b) * b + a % b ∧ 0 ≤ a % b ∧ a % b < b.natAbs := by
+  refine ⟨?_, Int.emod_nonneg a hb, Int.emod_lt a hb⟩
+  have := Int.emod_add_mul_ediv a b
+  rw [Int.mul_comm] ; omega
+
+/-- non-vacuity: negative dividend, negative divisor, a layout with two integer bits -/
+example : (⟨true, 8, 6⟩ : Layout).valid ∧ inRange ⟨true, 8, 6⟩ (-128) ∧ inRange ⟨true, 8, 6⟩ (-3) ∧ (-3 : Int) ≠ 0 := by decide
+
 end Sfx.C07
